@@ -34,7 +34,7 @@ func (g *c02gen) leaf() *sim.Node {
 	}
 }
 
-var c02Roots = []string{"sim", "memory", "files", "diskpacked", "localdisk", "namespace", "replica", "shard", "encrypt", "overlay", "blobpacked", "proxycache", "memory", "encrypt"}
+var c02Roots = []string{"sim", "memory", "files", "diskpacked", "localdisk", "namespace", "replica", "shard", "encrypt", "overlay", "blobpacked", "proxycache", "memory", "encrypt", "cond"}
 
 func (g *c02gen) root(t string) *sim.Node {
 	switch t {
@@ -67,6 +67,13 @@ func (g *c02gen) root(t string) *sim.Node {
 	case "blobpacked":
 		return &sim.Node{Type: "blobpacked", Name: g.name("bp"), Kids: []*sim.Node{
 			g.leaf(), {Type: "sim", Name: g.name("s")}}}
+	case "cond":
+		// the generated configuration's shape: schema blobs to
+		// replica(x, y), everything else to x, reads and removals from x
+		// (cond sniffs the beginning of every upload to tell which it is)
+		x, y := g.leaf(), g.leaf()
+		then := &sim.Node{Type: "replica", Name: g.name("rep"), Kids: []*sim.Node{x, y}, Min: 2}
+		return &sim.Node{Type: "cond", Name: g.name("cond"), Kids: []*sim.Node{then, x, x, x}}
 	case "proxycache":
 		return &sim.Node{Type: "proxycache", Name: g.name("pc"), Kids: []*sim.Node{g.leaf()}, CacheBytes: int64([]int{0, 100, 100000}[g.r.Intn(3)])}
 	}
